@@ -15,6 +15,7 @@ package main
 //	writeframe sync|async <fin> <op> <hex>
 //	flush sync|async
 //	close sync|async <code> <hexreason>
+//	setmax <max>                               SetMaxMessageSize(max) on the live stream (no trace event, "? setmax" line)
 //	defer                                      from here on the transport holds asynchronous writes back (no trace event)
 //	pump                                       the transport performs the writes it held back; reported as "flush async": its
 //	                                           result is the first error of the calls that were in flight, "other" if one of
@@ -318,6 +319,13 @@ func wsRun(script []string, w *bufio.Writer) {
 			}
 			deferred = true
 			ms.deferWrites = true
+			continue
+		case f[0] == "setmax":
+			if deferred {
+				continue
+			}
+			ws.SetMaxMessageSize(atoi(f[1]))
+			fmt.Fprintf(w, "? setmax %d\n", atoi(f[1]))
 			continue
 		case f[0] == "pump":
 			if !deferred {
